@@ -187,7 +187,7 @@ func binaryCursorCmd(args []string) error {
 					}
 					if !ok {
 						report(map[string]interface{}{"n": c.N, "data": data, "reader": kind, "call": ci + 1, "op": cl.Op,
-							"got": map[string]interface{}{"value": gotV, "bytes": gotB, "err": errName(err), "consumed": consumed()},
+							"got":  map[string]interface{}{"value": gotV, "bytes": gotB, "err": errName(err), "consumed": consumed()},
 							"want": map[string]interface{}{"value": wantV, "bytes": wantB, "err": cl.Err, "consumed": cl.Pos}})
 						break // later calls of this behaviour start from a different state
 					}
